@@ -354,8 +354,12 @@ func (o *Store) visitNodes(t *Collection, n *nodeLoc, target []byte,
 			return false, err
 		}
 		// Make sure the visitor is called on the item
-		// ending the recursion if the visitor says to
+		// ending the recursion if the visitor says to.
+		// The visitor may itself run visits, which drop the node's reference
+		// to the item: hold one until the item's key has been used below.
+		o.ItemAddRef(t, nItem)
 		if !visitor(nItem, depth) {
+			o.ItemDecRef(t, nItem)
 			return false, nil
 		}
 		if saveMem {
@@ -363,6 +367,7 @@ func (o *Store) visitNodes(t *Collection, n *nodeLoc, target []byte,
 			n = nil
 			_, _, choiceF = choiceFunc(t.compare(target, nItem.Key), nNode)
 		}
+		o.ItemDecRef(t, nItem)
 	}
 	return o.visitNodes(t, choiceF, target, withValue, visitor, depth+1, choiceFunc)
 
